@@ -1,13 +1,17 @@
-"""Engine K: Kani harnesses compiled into the real crate through the cfg-guarded hook modules.
+"""Engine K: Kani harnesses (and a few native shim-validation tests) compiled into the real crate through the
+cfg-guarded hook modules (/verif/hooks/<module>.rs).
 
 hooks/registry.json lists every harness:
-  name      harness function name (unique in the crate)
+  name      harness / test function name (unique in the crate)
   props     property ids it serves
-  kind      complete | bounded        (complete = loop-free or loops bounded by constants of the code, full symbolic domain)
+  kind      complete | bounded | native
+            complete = loop-free, or loops bounded by constants of the code and fully unwound (unwinding assertions on),
+                       over the full symbolic domain: a proof;  bounded = stated bound, never counted as proved;
+            native   = `cargo test` with --cfg rdest_verif: bounded-exhaustive validation of a shim Verus must assume
   tier      quick | thorough          (thorough-only harnesses are skipped in the quick tier)
   what      the clause it checks, in words
   pairs     name of the Verus obligation it provides counterexamples for (optional)
-  bound     text describing the bound (bounded harnesses)
+  bound     text describing the bound
   timeout   seconds
 """
 import json
@@ -18,6 +22,7 @@ import time
 
 VERIF = os.path.dirname(os.path.dirname(os.path.abspath(__file__)))
 TARGET = os.path.join(VERIF, '.cache', 'kani-target')
+NATIVE_TARGET = os.path.join(VERIF, '.cache', 'native-target')
 
 
 def registry():
@@ -27,85 +32,157 @@ def registry():
     return json.load(open(p))
 
 
-def kani_cmd(harness, repo, playback=False):
-    cmd = ['cargo', 'kani', '--target-dir', TARGET, '--harness', harness, '-Z', 'function-contracts', '-Z', 'stubbing']
-    if playback:
-        cmd += ['-Z', 'concrete-playback', '--concrete-playback=print']
-    return cmd
-
-
-def run_harness(h, repo, playback=False):
+def _env():
     env = dict(os.environ)
     env['CARGO_NET_OFFLINE'] = 'true'
-    cmd = kani_cmd(h['name'], repo, playback)
+    return env
+
+
+def run_kani_batch(hs, repo, playback=False):
+    """one cargo-kani invocation for several harnesses; returns {name: result dict}"""
+    out = {}
+    if not hs:
+        return out
+    cmd = ['cargo', 'kani', '--target-dir', TARGET, '--output-format', 'terse', '-j', str(min(8, len(hs)))]
+    for h in hs:
+        cmd += ['--harness', h['name']]
+    if playback:
+        cmd += ['-Z', 'concrete-playback', '--concrete-playback=print']
+    tmo = max(h.get('timeout', 600) for h in hs) + 120
     t0 = time.time()
+    cmdtxt = 'cd %s && CARGO_NET_OFFLINE=true %s' % (repo, ' '.join(cmd))
     try:
-        p = subprocess.run(cmd, cwd=repo, env=env, capture_output=True, text=True, timeout=h.get('timeout', 600))
-        out = p.stdout + '\n' + p.stderr
-        rc = p.returncode
+        p = subprocess.run(cmd, cwd=repo, env=_env(), capture_output=True, text=True, timeout=tmo)
+        text = p.stdout + '\n' + p.stderr
+        timed_out = False
     except subprocess.TimeoutExpired as e:
-        return {'status': 'undecided', 'reason': 'timeout after %ds' % h.get('timeout', 600), 'out': '', 'seconds': time.time() - t0,
-                'cmd': ' '.join(cmd)}
+        text = (e.stdout or b'').decode(errors='replace') if isinstance(e.stdout, bytes) else (e.stdout or '')
+        text += '\n' + ((e.stderr or b'').decode(errors='replace') if isinstance(e.stderr, bytes) else (e.stderr or ''))
+        timed_out = True
+        subprocess.run("ps aux | grep -E 'cbmc|kani-driver' | grep -v grep | awk '{print $2}' | xargs -r kill", shell=True)
     secs = time.time() - t0
-    r = {'out': out, 'seconds': round(secs, 1), 'cmd': 'cd %s && CARGO_NET_OFFLINE=true %s' % (repo, ' '.join(cmd))}
-    if 'VERIFICATION:- SUCCESSFUL' in out:
-        r['status'] = 'ok'
-        r['reason'] = ''
-        # vacuity: at least one check must have been generated and none may be unreachable-only
-        mm = re.search(r'\*\* (\d+) of (\d+) failed', out)
-        r['checks'] = int(mm.group(2)) if mm else None
-    elif 'VERIFICATION:- FAILED' in out:
-        r['status'] = 'failed'
-        fails = re.findall(r'Failed Checks: (.*)', out)
-        r['reason'] = '; '.join(fails[:5])
-        if any('unwinding assertion' in f for f in fails) and all('unwinding assertion' in f for f in fails):
-            r['status'] = 'undecided'
-            r['reason'] = 'unwinding bound too small: ' + r['reason']
+    # per-thread sections
+    cur = {}          # thread -> harness
+    res = {}          # harness -> list of lines
+    thread = None
+    for line in text.split('\n'):
+        mm = re.match(r'(?:Thread (\d+): )?Checking harness (\S+?)\.\.\.', line)
+        if mm:
+            thread = mm.group(1) or '0'
+            cur[thread] = mm.group(2)
+            res.setdefault(mm.group(2), [])
+            continue
+        mm = re.match(r'Thread (\d+):\s*$', line)
+        if mm:
+            thread = mm.group(1)
+            continue
+        if thread is not None and thread in cur:
+            res[cur[thread]].append(line)
+    compile_failed = ('error: could not compile' in text) or ('error[E' in text and 'Checking harness' not in text)
+    for h in hs:
+        key = None
+        for k in res:
+            if k.endswith('::' + h['name']) or k == h['name']:
+                key = k
+        r = {'seconds': round(secs, 1), 'cmd': cmdtxt, 'out': '', 'checks': None}
+        if compile_failed:
+            tail = [l for l in text.split('\n') if l.startswith('error')][:4]
+            r.update(status='undecided', reason='hook crate does not compile: ' + ' | '.join(tail)[:400])
+        elif key is None:
+            r.update(status='undecided', reason='harness not found / not run' + (' (batch timed out)' if timed_out else ''))
+        else:
+            body = '\n'.join(res[key])
+            r['out'] = body[-3000:]
+            tm = re.search(r'Verification Time: ([0-9.]+)s', body)
+            if tm:
+                r['seconds'] = round(float(tm.group(1)), 1)
+            if 'VERIFICATION:- SUCCESSFUL' in body:
+                mm = re.search(r'\*\* 0 of (\d+) failed', body)
+                r.update(status='ok', reason='', checks=int(mm.group(1)) if mm else None)
+                if r['checks'] == 0:
+                    r.update(status='undecided', reason='vacuous harness: no checks generated')
+            elif 'VERIFICATION:- FAILED' in body:
+                fails = re.findall(r'Failed Checks: (.*)', body)
+                r.update(status='failed', reason='; '.join(fails[:5])[:500])
+                if fails and all('unwinding assertion' in f for f in fails):
+                    r.update(status='undecided', reason='unwinding bound too small: ' + r['reason'])
+            else:
+                r.update(status='undecided', reason='no verdict' + (' (timed out after %ds)' % tmo if timed_out else ''))
+        if playback:
+            mm = re.search(r'(#\[test\]\s*fn kani_concrete_playback_\w*\(\)\s*\{[\s\S]*?\n\})', text)
+            r['playback_test'] = mm.group(1) if mm else ''
+        out[h['name']] = r
+    return out
+
+
+def run_native(h, repo):
+    env = _env()
+    env['RUSTFLAGS'] = (env.get('RUSTFLAGS', '') + ' --cfg rdest_verif').strip()
+    cmd = ['cargo', 'test', '--offline', '--lib', '--target-dir', NATIVE_TARGET, h['name']]
+    t0 = time.time()
+    cmdtxt = "cd %s && RUSTFLAGS='--cfg rdest_verif' %s" % (repo, ' '.join(cmd))
+    try:
+        p = subprocess.run(cmd, cwd=repo, env=env, capture_output=True, text=True, timeout=h.get('timeout', 900))
+    except subprocess.TimeoutExpired:
+        return {'status': 'undecided', 'reason': 'timeout', 'seconds': round(time.time() - t0, 1), 'cmd': cmdtxt, 'out': '', 'checks': None}
+    text = p.stdout + '\n' + p.stderr
+    r = {'seconds': round(time.time() - t0, 1), 'cmd': cmdtxt, 'out': text[-3000:], 'checks': None}
+    mm = re.search(r'test result: (\w+)\. (\d+) passed; (\d+) failed', text)
+    if 'error: could not compile' in text or not mm:
+        r.update(status='undecided', reason='native hook test did not build/run: ' + ' | '.join(l for l in text.split('\n') if l.startswith('error'))[:300])
+    elif int(mm.group(2)) + int(mm.group(3)) == 0:
+        r.update(status='undecided', reason='native test %s not found' % h['name'])
+    elif mm.group(1) == 'ok':
+        r.update(status='ok', reason='', checks=int(mm.group(2)))
     else:
-        r['status'] = 'undecided'
-        tail = out.strip().split('\n')[-8:]
-        r['reason'] = 'kani did not finish (rc=%d): %s' % (rc, ' | '.join(tail)[-500:])
+        pm = re.search(r"panicked at [^\n]*\n([^\n]*)", text)
+        r.update(status='failed', reason=(pm.group(1) if pm else 'test failed')[:400])
     return r
 
 
 def run_for(pid, tier, repo):
-    res = []
-    for h in registry():
-        if pid not in h['props']:
-            continue
-        if h.get('tier', 'quick') == 'thorough' and tier != 'thorough':
-            continue
-        r = run_harness(h, repo)
-        row = {'name': 'KANI/' + h['name'], 'kind': h['kind'], 'what': h['what'], 'pairs': h.get('pairs'),
+    hs = [h for h in registry() if pid in h['props'] and not (h.get('tier', 'quick') == 'thorough' and tier != 'thorough')]
+    kani_hs = [h for h in hs if h['kind'] in ('complete', 'bounded')]
+    batch = run_kani_batch(kani_hs, repo)
+    rows = []
+    failed = [h for h in kani_hs if batch.get(h['name'], {}).get('status') == 'failed']
+    pb = run_kani_batch(failed, repo, playback=True) if failed else {}
+    for h in hs:
+        r = batch[h['name']] if h['kind'] in ('complete', 'bounded') else run_native(h, repo)
+        row = {'name': ('KANI/' if h['kind'] != 'native' else 'NATIVE/') + h['name'], 'kind': h['kind'], 'what': h['what'], 'pairs': h.get('pairs'),
                'bound': h.get('bound'), 'status': r['status'], 'reason': r['reason'], 'seconds': r['seconds'],
                'cmd': r['cmd'], 'checks': r.get('checks')}
         if r['status'] == 'failed':
-            # second run to obtain a concrete input (unit test printed by kani)
-            r2 = run_harness(h, repo, playback=True)
-            test = ''
-            mm = re.search(r'(#\[test\]\s*fn kani_concrete_playback_[\s\S]*?\n\})', r2.get('out', ''))
-            if mm:
-                test = mm.group(1)
+            test = pb.get(h['name'], {}).get('playback_test', '')
             d = os.path.join(VERIF, 'replays', pid)
             os.makedirs(d, exist_ok=True)
-            path = os.path.join(d, 'kani_%s.txt' % h['name'])
-            txt = ('property: %s\nfailed obligation: KANI/%s\nkani harness: %s\nclause: %s\nfailed checks: %s\n'
-                   'verifier: %s\n\nconcrete input found by CBMC (paste into the hook module and run with\n'
-                   '`cargo kani playback -Z concrete-playback -- %s`):\n%s\n'
-                   % (pid, h['name'], h['name'], h['what'], r['reason'], r['cmd'], 'kani_concrete_playback', test or '(none printed)'))
-            open(path, 'w').write(txt)
+            path = os.path.join(d, '%s.txt' % h['name'])
+            txt = ('property: %s\nfailed obligation: %s\nkani harness: %s\nclause: %s\nfailed checks: %s\nverifier: %s\n'
+                   % (pid, row['name'], h['name'], h['what'], r['reason'], r['cmd']))
+            if h['kind'] == 'native':
+                txt += '\nthe failing input is in the panic message above; replay: ./check %s --replay %s\n\n%s\n' % (pid, path, r['out'][-1500:])
+                row['has_input'] = True
+            else:
+                txt += ('\nconcrete input found by CBMC, as a unit test on the real code (add it next to the harness in /verif/hooks and run\n'
+                        '`cargo kani playback -Z concrete-playback --target-dir %s -- kani_concrete_playback`):\n%s\n'
+                        % (TARGET, test or '(kani printed no concrete test)'))
+                row['has_input'] = bool(test)
+            with open(path, 'w') as f:
+                f.write(txt)
             row['replay'] = path
             row['replay_text'] = txt
-            row['has_input'] = bool(test)
-        res.append(row)
-    return res
+        rows.append(row)
+    return rows
 
 
 def replay(harness, txt, repo):
     for h in registry():
         if h['name'] == harness:
-            r = run_harness(h, repo)
-            print('KANI/%s: %s %s' % (harness, r['status'], r['reason']))
+            if h['kind'] == 'native':
+                r = run_native(h, repo)
+            else:
+                r = run_kani_batch([h], repo)[h['name']]
+            print('%s: %s %s' % (harness, r['status'], r['reason']))
             return {'ok': 0, 'failed': 1}.get(r['status'], 2)
     print('harness %s not registered' % harness)
     return 2
